@@ -134,6 +134,11 @@ def correspond(ctx):
     finally:
         vlib.run_driver = old
         vlib.go_build = old_build
+    # class 1: a generated line is always well-formed; `bad-op` from the model (or from the code) on
+    # such a line is a broken tie, not agreement
+    if c.get('bad_op', 0) and c.get('ok'):
+        c['ok'] = False
+        c.setdefault('errors', []).append('%d generated op lines were answered bad-op by the model' % c['bad_op'])
     c['name'] = 'c13'
     return [c]
 
@@ -164,16 +169,49 @@ def search(ctx, hints):
     import shutil
     shutil.rmtree(cwd, ignore_errors=True)
     got = None
+    early = []
     for line in so.split('\n'):
         if line.startswith('SEARCH '):
             got = json.loads(line[7:])
+        elif line.startswith('VIOL '):
+            try:
+                early.append(json.loads(line[5:]))
+            except Exception:
+                pass
     if got is None:
-        res['error'] = 'searcher produced no result: rc=%d %s' % (rc, (se or so)[-800:])
+        # the searcher died or timed out: what it printed when found is still reported
+        res['error'] = 'searcher produced no summary: rc=%d %s' % (rc, (se or so)[-800:])
+        for v in early:
+            res['violations'].append(dict(key=v['key'], desc=v['desc'], replay=v.get('replay')))
         return res
     res.update(evaluations=got.get('evaluations', 0), distinct_nontrivial=got.get('distinct_nontrivial', 0),
                samples=got.get('samples') or [], dist=got.get('dist'), algebra_samples=got.get('algebra_samples'))
     for v in got.get('violations') or []:
         res['violations'].append(dict(key=v['key'], desc=v['desc'], replay=v.get('replay')))
+    res['concurrency'] = 'evidence, not proof: plain build in quick; -race build in thorough'
+    if ctx.thorough():
+        # class 4: the concurrency phase again from a -race build
+        rb, log = vlib.go_build(ctx, vlib.HARNESS, './cmd/c13', 'c13race',
+                                tags='verif c13lgen' if _twin_hook_present(ctx) else 'verif', race=True)
+        if not rb:
+            res['error'] = 'race build failed: ' + log[-800:]
+            return res
+        cwd = ctx.scratch('c13race')
+        rc, so2, se2 = vlib.run([rb, 'mode=conc', 'tier=thorough'], cwd=cwd,
+                                env=dict(VERIF_SEED=str(ctx.seed + 104729), GORACE='halt_on_error=0'), timeout=1500)
+        shutil.rmtree(cwd, ignore_errors=True)
+        races = se2.count('WARNING: DATA RACE')
+        res['race_run'] = dict(rc=rc, data_races=races)
+        if races or rc != 0:
+            res['violations'].append(dict(key='data-race-or-crash-under-concurrency',
+                                          desc='-race run of the concurrency phase: rc=%d, %d data races: %s' % (rc, races, se2[:600]),
+                                          replay=dict(op='harness/bin/c13race mode=conc tier=thorough', seed=ctx.seed + 104729)))
+        for line in so2.split('\n'):
+            if line.startswith('SEARCH '):
+                g2 = json.loads(line[7:])
+                res['evaluations'] += g2.get('evaluations', 0)
+                for v in g2.get('violations') or []:
+                    res['violations'].append(dict(key=v['key'], desc=v['desc'], replay=v.get('replay')))
     return res
 
 
